@@ -13,14 +13,16 @@ from harness import lib, nodes
 from harness.lib import cb, cl, cn, cz
 
 PROP = "C01"
-IMPORTS = "Base Dag"
+IMPORTS = "Base Dag Poll"
 RULE = ("random DAGs in topological numbering (2..12 nodes quick, ..30 thorough), 0-4 inputs per node, each input a "
         "constant or 1-3 prioritised connections to earlier nodes; every node independently local or on the manual "
         "executor; completion choices from the scenario's oracle. Non-trivial: at least one data edge AND at least one "
         "node with >=2 distinct upstream owners or an executor child. Distinct: distinct (graph, oracle).")
 TRUSTED = ["harness ManualExecutor + replacement of pyiron_workflow.nodes.composite.sleep as the completion schedule",
            "toposort package (layer 0 = starting nodes) as Dag.sources"]
-ASSUMPTIONS = ["executor callbacks are atomic events (finer thread interleavings are not exhibited: DESIGN C01 split-callback residue)",
+ASSUMPTIONS = ["dag family: executor callbacks are atomic events; race family: the interleaving is at the granularity of the "
+               "accesses to running_children / signal_queue (Poll.v) -- finer (bytecode-level) interleavings rely on the GIL "
+               "making single list operations atomic",
                "node functions deterministic; fresh nodes (no cache hits inside one run)"]
 
 
@@ -49,14 +51,37 @@ def generate(ctx):
     for j in range(ctx.n(350, 4000)):
         nmax = rng.choice([4, 6, 8, 12]) if ctx.quick else rng.choice([4, 8, 12, 20, 30])
         g = gen_graph(rng, nmax, rng.choice([0.0, 0.3, 0.6, 1.0]))
-        out.append({"nodes": g, "oracle": [rng.randint(0, 7) for _ in range(len(g))]})
+        c = {"nodes": g, "oracle": [rng.randint(0, 7) for _ in range(len(g))]}
+        if rng.random() < 0.3:
+            c["pickle"] = True
+        if rng.random() < 0.35:
+            c["rerun"] = {"oracle0": [rng.randint(0, 7) for _ in range(len(g))], "bump": rng.randint(1, 5)}
+        out.append(c)
     # a few real thread-pool runs with a slow checkpoint back end on the executor children (regression for S20)
     for j in range(ctx.n(3, 25)):
         n = rng.randint(2, 4)
         out.append({"fam": "thread", "n": n, "threaded": sorted(rng.sample(range(n - 1), rng.randint(1, n - 1))),
                     "delay": rng.choice([0.05, 0.1])})
+    # the wait loop against the done-callbacks, list access by list access (Poll.v)
+    for j in range(ctx.n(160, 2500)):
+        g = gen_graph(rng, rng.choice([2, 3, 4, 6]), rng.choice([0.5, 0.8, 1.0]))
+        if not any(nd["ex"] for nd in g):
+            g[0]["ex"] = True
+        out.append({"fam": "race", "nodes": g, "sched": [rng.randint(0, 5) for _ in range(rng.choice([10, 30, 80]))]})
     if not ctx.quick:
         out.extend(enumerate_small())
+        out.extend(enumerate_race())
+    return out
+
+
+def enumerate_race():
+    """every schedule prefix of length 7 over <=3 choices for executor-child -> local child (and a 2-job fork)"""
+    import itertools
+    g1 = [{"k": 1, "ins": [["c", 2]], "ex": True}, {"k": 2, "ins": [["n", [0]]], "ex": False}]
+    g2 = [{"k": 1, "ins": [["c", 2]], "ex": True}, {"k": 2, "ins": [["c", 3]], "ex": True},
+          {"k": 3, "ins": [["n", [0]], ["n", [1]]], "ex": False}]
+    out = [{"fam": "race", "nodes": g1, "sched": list(s)} for s in itertools.product(range(3), repeat=7)]
+    out += [{"fam": "race", "nodes": g2, "sched": list(s)} for s in itertools.product(range(4), repeat=5)]
     return out
 
 
@@ -83,9 +108,9 @@ def corpus(ctx):
     return out
 
 
-def build(case, name="wf"):
+def build(case, name="wf", cls=None):
     from pyiron_workflow import Workflow
-    wf = Workflow(name)
+    wf = (cls or Workflow)(name)
     ex = nodes.ManualExecutor()
     children = []
     for i, nd in enumerate(case["nodes"]):
@@ -105,8 +130,20 @@ def build(case, name="wf"):
                 for u in reversed(inp[1]):       # connect lowest priority first: newest connection wins
                     node.inputs["x" if nd.get("macro") else nodes.ARG[j]].connect(children[u].outputs[_out(children[u])])
         if nd["ex"]:
-            node.executor = ex
+            if case.get("pickle") and nd.get("macro"):
+                from harness import c10_nodes
+                node.executor = c10_nodes.PickleBoundaryExecutor()     # the macro crosses by value and is merged back
+            else:
+                node.executor = ex
     return wf, children, ex
+
+
+def eff(case):
+    """the graph the observed run executed: a re-run case bumps every constant input before its second run"""
+    rr = case.get("rerun")
+    if not rr:
+        return case["nodes"]
+    return [dict(nd, ins=[(["c", i[1] + rr["bump"]] if i[0] == "c" else i) for i in nd["ins"]]) for nd in case["nodes"]]
 
 
 from pyiron_workflow.nodes.macro import as_macro_node  # noqa: E402
@@ -132,7 +169,7 @@ def make_hook(children, ex, oracle):
             return False
         k = oracle.pop(0) if oracle else 0
         i = outs[k % len(outs)]
-        ex.complete(children[i].future)
+        children[i].executor.complete(children[i].future)
         return True
     return hook
 
@@ -180,13 +217,134 @@ def run_threaded(case):
     return {"threaded": res}
 
 
+def run_race(case):
+    """the same workflows, but the parent runs on thread P and every completion on its own thread; the
+    schedule interleaves them at the accesses to the parent's two bookkeeping lists (harness/baton.py)"""
+    import pyiron_workflow.nodes.composite as comp
+    from pyiron_workflow.channels import NOT_DATA
+    from harness import baton
+    nodes.reset()
+    B = baton.Baton(case["sched"])
+    cls = baton.probed_workflow_class()
+    cls._baton = B
+    wf, children, ex = build(case, cls=cls)
+    box = {}
+
+    def parent():
+        try:
+            ret = wf.run()
+            box["res"] = ["ok", sorted([k, v if isinstance(v, int) else "nd"] for k, v in dict(ret).items())]
+        except Exception as e:
+            box["res"] = ["err", nodes.exc_kind(e) + [[str(e)[:80]]]]
+
+    def outstanding():
+        return [i for i, c in enumerate(children) if c.running and c.future is not None and not c.future.done()]
+
+    def sleep(_dt):
+        B.point("sleep")
+        B.log("sleep")
+        if B.hang:
+            raise RuntimeError("hang: the parent sleeps although no job is out and no callback is unfinished")
+    old = comp.sleep
+    comp.sleep = sleep
+    try:
+        with nodes.event_log():
+            B.drive(parent, outstanding, lambda j: ex.complete(children[j].future))
+    except baton.Stuck as e:
+        box.setdefault("res", ["err", [["Stuck"], [str(e)[:80]]]])
+    finally:
+        comp.sleep = old
+    box.setdefault("res", ["err", [["no-result"]]])
+    idx = {c.label: i for i, c in enumerate(children)}
+    log = [[t, idx[c]] for (t, p, c) in nodes.EVENTS if p == wf.full_label]
+    outs = [c.outputs.y.value if c.outputs.y.value is not NOT_DATA else "nd" for c in children]
+    done = [(not c.running) and (not c.failed) and c.outputs.y.value is not NOT_DATA for c in children]
+    wiring = [sorted({idx[o.owner.label] for o in c.signals.input.accumulate_and_run.connections}) for c in children]
+    starting = [idx[s.label] for s in wf.starting_nodes]
+    calls = [t for (t, a) in nodes.CALLS]
+    flags = [[bool(c.running), bool(c.failed)] for c in children] + [[bool(wf.running), bool(wf.failed)]]
+    # ---- the trace as a history of the Poll machine
+    tr = B.trace
+    appends = {}
+    for th, kind, *a in tr:
+        if th.startswith("W") and kind == "append_queue":
+            appends[int(th[1:])] = appends.get(int(th[1:]), 0) + 1
+
+    def effects(evs):
+        enq, add, rem = 0, [], []
+        for th, kind, *a in evs:
+            if th != "P":
+                continue
+            if kind == "append_queue":
+                enq += 1
+            elif kind == "append_running":
+                add.append(idx.get(a[0], 99))
+            elif kind == "remove_running":
+                rem.append(idx.get(a[0], 99))
+        return enq, [[j, appends.get(j, 0)] for j in add if j not in rem]
+    try:
+        i0 = next(i for i, e in enumerate(tr) if e[1] == "loop_enter")
+    except StopIteration:
+        i0 = len(tr)
+    enq0, starts0 = effects(tr[:i0])
+    ops, seen = [], []
+    i = i0 + 1
+    exit_state = None
+    while i < len(tr):
+        th, kind, *a = tr[i]
+        if th == "P" and kind in ("len_running", "len_queue"):
+            ops.append("ORead")
+            seen.append(["r" if kind == "len_running" else "q", a[0]])
+        elif th == "P" and kind == "pop":
+            j = i + 1
+            while j < len(tr) and not (tr[j][0] == "P" and tr[j][1] in ("len_running", "len_queue", "loop_exit")):
+                j += 1
+            enq, starts = effects(tr[i + 1:j])
+            ops.append(["OBody", enq, starts])
+            seen.append(["pop", 1 if a[0] else 0])
+        elif th == "P" and kind == "loop_exit":
+            exit_state = a
+        elif th.startswith("W") and kind in ("append_queue", "remove_running"):
+            ops.append(["OW", int(th[1:])])
+        i += 1
+    unfinished = len([1 for j in appends if not any(e[0] == f"W{j}" and e[1] == "remove_running" for e in tr)])
+    view = [seen, "exit" if exit_state is not None else "noexit", *(exit_state or [0, 0]), 0, 0]
+    case["_poll"] = [enq0, starts0, ops]
+    return {"model": [[log, outs, done], [wiring, sorted(starting)]], "res": box["res"], "calls": calls, "flags": flags,
+            "run_conns": [len(c.signals.input.run.connections) for c in children], "poll_view": view,
+            "hang": B.hang, "steps": len(tr), "preempted": sum(1 for a, b in zip(tr, tr[1:]) if a[0] != b[0])}
+
+
 def run_impl(case):
     if case.get("fam") == "thread":
         return run_threaded(case)
+    if case.get("fam") == "race":
+        return run_race(case)
     from pyiron_workflow.channels import NOT_DATA
     nodes.reset()
     wf, children, ex = build(case)
     res = None
+    rr = case.get("rerun")
+    first = None
+    if rr:
+        from pyiron_workflow.nodes.composite import Composite
+        # history prefix: a complete first run (its own completion order), then every constant input changes
+        wf.use_cache = False
+        for c in children:
+            c.use_cache = False
+            for cc in (list(c.children.values()) if isinstance(c, Composite) else []):
+                cc.use_cache = False
+        with nodes.poll_hook(make_hook(children, ex, rr["oracle0"])):
+            try:
+                wf.run()
+                first = "ok"
+            except Exception as e:
+                first = ["err", nodes.exc_kind(e)]
+        for c, nd in zip(children, case["nodes"]):
+            for j, inp in enumerate(nd["ins"]):
+                if inp[0] == "c":
+                    c.inputs["x" if nd.get("macro") else nodes.ARG[j]].value = inp[1] + rr["bump"]
+        nodes.reset()
     with nodes.poll_hook(make_hook(children, ex, case["oracle"])), nodes.event_log():
         try:
             ret = wf.run()
@@ -204,22 +362,32 @@ def run_impl(case):
     flags = [[bool(c.running), bool(c.failed)] for c in children] + [[bool(wf.running), bool(wf.failed)]]
     runsig = [len(c.signals.input.run.connections) for c in children]
     return {"model": [[log, outs, done], [wiring, sorted(starting)]], "res": res, "calls": calls, "flags": flags,
-            "run_conns": runsig}
+            "run_conns": runsig, "first": first}
 
 
 def model_view(case, obs):
+    if case.get("fam") == "race" and isinstance(obs, dict):
+        return obs["poll_view"]
     return obs["model"] if isinstance(obs, dict) else obs
 
 
 def graph_coq(case):
     ns = []
-    for nd in case["nodes"]:
+    for nd in eff(case):
         ins = cl((f"IConst {cz(i[1])}" if i[0] == "c" else "IConn " + cl(cn(u) for u in i[1])) for i in nd["ins"])
         ns.append(f"{{| n_k := {cz(nd['k'])}; n_ins := {ins}; n_remote := {cb(nd['ex'])}; n_macro := {cb(bool(nd.get('macro')))} |}}")
     return cl(ns)
 
 
 def model_term(case):
+    if case.get("fam") == "race":
+        if "_poll" not in case:
+            return None
+        enq0, starts0, ops = case["_poll"]
+        pairs = lambda st: cl(f"({cn(j)}, {cn(k)})" for j, k in st)     # noqa: E731
+        return (f"obs_poll {cn(enq0)} {pairs(starts0)} " +
+                cl(o if o == "ORead" else (f"OW {cn(o[1])}" if o[0] == "OW" else f"OBody {cn(o[1])} {pairs(o[2])}")
+                   for o in ops))
     if case.get("fam") == "thread" or "_order" not in case:
         return None
     return (f"g_obs {graph_coq(case)} {cl(cn(u) for u in case['_order'])} "
@@ -228,7 +396,7 @@ def model_term(case):
 
 def expected_values(case):
     vals = []
-    for nd in case["nodes"]:
+    for nd in eff(case):
         args = [(i[1] if i[0] == "c" else vals[i[1][0]]) for i in nd["ins"]]
         v = (nd["k"] + sum((j + 1) * a for j, a in enumerate(args))) % nodes.M
         if nd.get("macro"):
@@ -253,6 +421,10 @@ def oracle(case, obs):
         return None
     (log, outs, done), (wiring, starting) = obs["model"]
     n = len(case["nodes"])
+    if obs.get("first") not in (None, "ok"):
+        return f"raised: the first run of the re-run history raised {obs['first'][1]}"
+    if obs.get("hang"):
+        return "hang: the parent keeps sleeping although no job is out and no callback is unfinished"
     if obs["res"][0] != "ok":
         return f"raised: running an acyclic graph raised {obs['res'][1]}"
     for i in range(n):
@@ -266,6 +438,8 @@ def oracle(case, obs):
     for i in range(n):
         pass
     for i, nd in enumerate(case["nodes"]):
+        if case.get("fam") == "race":
+            break       # the callback enqueues before it un-registers (the logged "finish"): order is judged by the values
         for inp in nd["ins"]:
             if inp[0] == "n":
                 for u in inp[1]:
@@ -288,19 +462,43 @@ def oracle(case, obs):
 def nontrivial(case, obs):
     if case.get("fam") == "thread":
         return True
+    if case.get("fam") == "race":
+        return isinstance(obs, dict) and obs.get("preempted", 0) >= 3
     ups = [set(u for inp in nd["ins"] if inp[0] == "n" for u in inp[1]) for nd in case["nodes"]]
     return any(ups) and (any(len(u) >= 2 for u in ups) or any(nd["ex"] for nd in case["nodes"]))
 
 
 def key(case):
-    return case if case.get("fam") == "thread" else [case["nodes"], case["oracle"]]
+    if case.get("fam") == "race":
+        return ["race", case["nodes"], case["sched"]]
+    return case if case.get("fam") == "thread" else [case["nodes"], case["oracle"], case.get("pickle"), case.get("rerun")]
 
 
 def shrink_candidates(case):
     if case.get("fam") == "thread":
         return
+    if case.get("fam") == "race":
+        sc = case["sched"]
+        if sc:
+            yield dict(case, sched=sc[:len(sc) // 2])
+            yield dict(case, sched=sc[:-1])
+            for i, v in enumerate(sc):
+                if v:
+                    yield dict(case, sched=sc[:i] + [0] + sc[i + 1:])
+        ns = case["nodes"]
+        if len(ns) > 1 and not any(u == len(ns) - 1 for nd in ns for inp in nd["ins"] if inp[0] == "n" for u in inp[1]):
+            yield dict(case, nodes=ns[:-1])
+        for i, nd in enumerate(ns):
+            if nd["ex"] and sum(1 for x in ns if x["ex"]) > 1:
+                new = [dict(x) for x in ns]
+                new[i]["ex"] = False
+                yield dict(case, nodes=new)
+        return
     ns = case["nodes"]
     n = len(ns)
+    extra = {k: case[k] for k in ("pickle", "rerun") if k in case}
+    for k in extra:
+        yield {kk: v for kk, v in case.items() if kk != k and not kk.startswith("_")}
     # drop the last node / a leaf node
     used = {u for nd in ns for inp in nd["ins"] if inp[0] == "n" for u in inp[1]}
     for d in reversed(range(n)):
@@ -315,23 +513,23 @@ def shrink_candidates(case):
                         ins.append(["n", [u - (u > d) for u in inp[1]]])
                     else:
                         ins.append(inp)
-                new.append({"k": nd["k"], "ins": ins, "ex": nd["ex"]})
-            yield {"nodes": new, "oracle": case["oracle"]}
+                new.append(dict(nd, ins=ins))
+            yield dict(extra, nodes=new, oracle=case["oracle"])
     for i, nd in enumerate(ns):
         if nd["ex"]:
             new = [dict(x) for x in ns]
             new[i]["ex"] = False
-            yield {"nodes": new, "oracle": case["oracle"]}
+            yield dict(extra, nodes=new, oracle=case["oracle"])
         for j, inp in enumerate(nd["ins"]):
             new = [dict(x, ins=[list(y) for y in x["ins"]]) for x in ns]
             if inp[0] == "n" and len(inp[1]) > 1:
                 new[i]["ins"][j] = ["n", inp[1][:-1]]
-                yield {"nodes": new, "oracle": case["oracle"]}
+                yield dict(extra, nodes=new, oracle=case["oracle"])
             elif inp[0] == "n":
                 new[i]["ins"][j] = ["c", 1]
-                yield {"nodes": new, "oracle": case["oracle"]}
+                yield dict(extra, nodes=new, oracle=case["oracle"])
     if any(case["oracle"]):
-        yield {"nodes": ns, "oracle": [0] * len(case["oracle"])}
+        yield dict(extra, nodes=ns, oracle=[0] * len(case["oracle"]))
 
 
 def distribution(results):
@@ -339,11 +537,19 @@ def distribution(results):
     sizes = collections.Counter()
     remote = collections.Counter()
     edges = 0
+    race = {"cases": 0, "list_accesses": 0, "thread_switches": 0, "loop_reads": 0}
     for c, enc, v, o in results:
+        if c.get("fam") == "race":
+            race["cases"] += 1
+            if isinstance(o, dict):
+                race["list_accesses"] += o.get("steps", 0)
+                race["thread_switches"] += o.get("preempted", 0)
+                race["loop_reads"] += len(o["poll_view"][0])
+            continue
         if c.get("fam") == "thread":
             continue
         sizes[len(c["nodes"])] += 1
         remote[sum(1 for nd in c["nodes"] if nd["ex"])] += 1
         edges += sum(len(inp[1]) for nd in c["nodes"] for inp in nd["ins"] if inp[0] == "n")
     return {"nodes_per_graph": dict(sorted(sizes.items())), "executor_children_per_graph": dict(sorted(remote.items())),
-            "data_connections_total": edges}
+            "data_connections_total": edges, "race_family": race}
